@@ -114,8 +114,41 @@ def w2(ctx):
             if arm is None:
                 yield Ob(key_of("C17-W2", b.path, "arm-unknown"), False, "cannot tell which ArenaPosition arm produced %s" % short(v, 100), ctx.loc(s))
                 continue
-            order = Order(fs, extra_ge0=[sub(cap, do)])
+            order = Order(fs, extra_ge0=[sub(cap, do), sub(const(2**32 - 1), cap)])      # data_offset <= cap (C16-L3), cap is a u32
             ok = clamp_ok(order, v, xs[arm], do, cap)
+            if not ok:
+                # an alternative that arrives over several source paths (`Ok(_) | Err(_) => cap`): judge every way of getting there
+                import dnf as D
+
+                def flat(x, acc):
+                    if tag(x) == "phi" and len(x) > 4:
+                        try:
+                            jb_ = int(str(x[1][-1]).split("@")[-1])
+                        except ValueError:
+                            return
+                        for a_, o_ in zip(x[3], x[4]):
+                            if tag(a_) == "phi" and len(a_) > 4:
+                                flat(a_, acc)
+                            elif o_ is not None:
+                                acc.append((a_, o_, jb_))
+                srcs = []
+                flat(s["value"], srcs)
+                srcs = [(o_, jb_) for a_, o_, jb_ in srcs if a_ == v]
+                if srcs:
+                    ok = True
+                    for o_, jb_ in srcs:
+                        cond = D.block_dnf(ev, res, b, o_)
+                        edge = D.guard_dnf([g for g in ev.guards_edge(res, o_, jb_) if g not in ev.guards(res, o_)])
+                        if cond is None:
+                            ok = False
+                            break
+                        for c in cond:
+                            for e_ in edge:
+                                conj = set(c) | set(e_)
+                                if D.conj_unsat(conj):
+                                    continue
+                                if not clamp_ok(Order(conj, extra_ge0=[sub(cap, do), sub(const(2**32 - 1), cap)]), v, xs[arm], do, cap):
+                                    ok = False
             n += 1
             yield Ob(key_of("C17-W2", b.path, "clamp-%s" % arm, n), ok,
                      "%s arm: stored %s %s clamp(%s) under {%s}" % (arm, short(v, 90), "==" if ok else "is NOT provably", short(xs[arm], 60),
